@@ -1,7 +1,8 @@
 """Shared object-graph driver for C08 / C09 / C12 / C16: a pool of Node objects,
 a menu of graph-mutation events, a from-scratch interpreter of observe
 expressions over the object graph, and the notifier fingerprint."""
-from traits.api import (Any, Dict, HasTraits, Instance, Int, List, Set, Str)
+from traits.api import (Any, Dict, HasTraits, Instance, Int, List, Property,
+                        Set, Str, cached_property)
 from traits.trait_dict_object import TraitDict
 from traits.trait_list_object import TraitList
 from traits.trait_set_object import TraitSet
@@ -18,7 +19,12 @@ class _Konst(HasTraits):
         return "K"
 
 
-def make_node_class(eq=False, falsy=False):
+#: traits whose value is not kept under their own name in the instance
+#: dictionary: a cached property that returns another trait's value
+ALIAS = {"plink": "child"}
+
+
+def make_node_class(eq=False, falsy=False, prop=False):
     class Node(HasTraits):
         value = Int
         tagged = Int(tag=True)
@@ -41,6 +47,15 @@ def make_node_class(eq=False, falsy=False):
 
         def __repr__(self):
             return "N%d" % self.nid
+    if prop:
+        # a link that is a cached property (its value is never in the
+        # instance dictionary under its own name)
+        class Node(Node):
+            plink = Property(Instance(HasTraits), observe="child")
+
+            @cached_property
+            def _get_plink(self):
+                return self.child
     if eq == "raises":
         # a value-based __eq__ that assumes the other operand's type
         def _eq(self, other):
@@ -69,11 +84,16 @@ _SHARED = None
 _SHARED_EQ = None
 _SHARED_FALSY = None
 _SHARED_RAISES = None
+_SHARED_PROP = None
 
 
 def make_pool(fresh_class=False, eq=False):
-    global _SHARED, _SHARED_EQ, _SHARED_FALSY, _SHARED_RAISES
-    if eq == "raises":
+    global _SHARED, _SHARED_EQ, _SHARED_FALSY, _SHARED_RAISES, _SHARED_PROP
+    if eq == "prop":
+        if _SHARED_PROP is None:
+            _SHARED_PROP = make_node_class(prop=True)
+        cls = _SHARED_PROP
+    elif eq == "raises":
         if _SHARED_RAISES is None:
             _SHARED_RAISES = make_node_class(eq="raises")
         cls = _SHARED_RAISES
@@ -463,7 +483,7 @@ def watch(root, paths):
                 W.add(("trait", id(obj), name))
                 keep.append(obj)
             if rest:
-                val = obj.__dict__.get(name)
+                val = obj.__dict__.get(ALIAS.get(name, name))
                 if val is not None:
                     walk(val, rest)
     for p in paths:
